@@ -104,13 +104,17 @@ class IpcCommand:
         nonfatal = self.read() == "true"
         self.cwd = self.read()
         self.phase = self.read()
-        options = shlex.split(self.read())
+        options = self.read()
         args = self.read().strip("\0")
         args = args.split("\0") if args else []
 
         # parse args and run command
         with chdir(self.cwd):
             try:
+                try:
+                    options = shlex.split(options)
+                except ValueError as e:
+                    raise IpcCommandError(f"invalid option string: {e}")
                 args = self.parse_args(options, args)
                 ret = self.run(args)
             except IpcCommandError as e:
